@@ -30,7 +30,7 @@ theorem quietNode_not236 (n : Node) (h : quietNode n = true) : n.desc ≠ 236000
   rw [e] at h
   simp [Desc.f, Desc.x] at h
 
-theorem bmPre_quiet (bsq : List Node) (ddo : DDO) (n : Node)
+theorem bmPre_quiet (bsq : Unit → List Node) (ddo : DDO) (n : Node)
     (hd : quietDDO ddo) (hn : quietNode n = true) : bmPre bsq ddo {} n = .cont ddo {} := by
   have h236 := quietNode_not236 n hn
   have hc : n.flags.class33 = false := by
@@ -40,7 +40,7 @@ theorem bmPre_quiet (bsq : List Node) (ddo : DDO) (n : Node)
   simp [hc, h236, hd]
 
 /-- **the whole `bufr_apply_tables2node` is the modelled tail** on a quiet node in a quiet state -/
-theorem applyTables2nodeB_quiet (T : Tables) (edition : Nat) (bsq : List Node) (ddo : DDO) (n : Node)
+theorem applyTables2nodeB_quiet (T : Tables) (edition : Nat) (bsq : Unit → List Node) (ddo : DDO) (n : Node)
     (hd : quietDDO ddo) (hn : quietNode n = true) :
     applyTables2nodeB T edition bsq ddo {} n =
       ((applyTables2node T edition ddo n).1, {}, (applyTables2node T edition ddo n).2.1,
@@ -369,10 +369,10 @@ theorem indexDpbm_WF (bsq : List Node) : (indexDpbm bsq).WF := by
   unfold indexDpbm BM.WF
   simp
 
-theorem ensureIndexed_WF (bm : BM) (bsq : List Node) (h : bm.WF) : (ensureIndexed bm bsq).WF := by
+theorem ensureIndexed_WF (bm : BM) (bsq : Unit → List Node) (h : bm.WF) : (ensureIndexed bm bsq).WF := by
   unfold ensureIndexed
   split
-  · exact indexDpbm_WF bsq
+  · exact indexDpbm_WF (bsq ())
   · exact h
 
 /-- the state after the head of `bufr_apply_tables2node` -/
@@ -382,7 +382,7 @@ def BMPre.bm : BMPre → BM
 
 /-- **every step keeps the bit-map arrays in bounds**: no write past `dp[nb_codes-1]`, every `dp`
 entry a valid subscript of `index[]` -/
-theorem bmPre_WF (bsq : List Node) (ddo : DDO) (bm : BM) (n : Node) (h : bm.WF) : (bmPre bsq ddo bm n).bm.WF := by
+theorem bmPre_WF (bsq : Unit → List Node) (ddo : DDO) (bm : BM) (n : Node) (h : bm.WF) : (bmPre bsq ddo bm n).bm.WF := by
   unfold bmPre
   split
   · -- marker: the state is returned as it is
@@ -420,7 +420,7 @@ theorem bmPre_WF (bsq : List Node) (ddo : DDO) (bm : BM) (n : Node) (h : bm.WF) 
               split
               · rename_i h0
                 have hdp := hw.1 (by omega)
-                obtain ⟨e1, e2, e3, e4⟩ := initDpbm_WF d bsq (startPos bsq) hdp hw.2.2.2
+                obtain ⟨e1, e2, e3, e4⟩ := initDpbm_WF d (bsq ()) (startPos (bsq ())) hdp hw.2.2.2
                 simp only [BMPre.bm, BM.WF]
                 refine ⟨by intro hc; omega, ?_, ?_, e4⟩
                 · rw [e1]; exact e2
@@ -428,7 +428,7 @@ theorem bmPre_WF (bsq : List Node) (ddo : DDO) (bm : BM) (n : Node) (h : bm.WF) 
               · split
                 · rename_i hr
                   have hdp := hw.1 (by omega)
-                  obtain ⟨e1, e2, e3, e4⟩ := initDpbm_WF d bsq (startPos bsq) hdp hw.2.2.2
+                  obtain ⟨e1, e2, e3, e4⟩ := initDpbm_WF d (bsq ()) (startPos (bsq ())) hdp hw.2.2.2
                   simp only [BMPre.bm, BM.WF]
                   refine ⟨by intro hc; omega, ?_, ?_, e4⟩
                   · rw [e1]; exact e2
@@ -436,7 +436,7 @@ theorem bmPre_WF (bsq : List Node) (ddo : DDO) (bm : BM) (n : Node) (h : bm.WF) 
                 · simp only [BMPre.bm, BM.WF, hs]; exact hw
           · exact h
 
-theorem applyTables2nodeB_WF (T : Tables) (edition : Nat) (bsq : List Node) (ddo : DDO) (bm : BM) (n : Node)
+theorem applyTables2nodeB_WF (T : Tables) (edition : Nat) (bsq : Unit → List Node) (ddo : DDO) (bm : BM) (n : Node)
     (h : bm.WF) : (applyTables2nodeB T edition bsq ddo bm n).2.1.WF := by
   have := bmPre_WF bsq ddo bm n h
   unfold applyTables2nodeB
@@ -460,8 +460,8 @@ theorem decodeSubsetLoopB_WF (T : Tables) (edition s4max : Nat) :
       rw [← h.2.2.2]; exact hw
     | cons n rest =>
       unfold decodeSubsetLoopB at h
-      have hw1 := applyTables2nodeB_WF T edition (done.reverse ++ n :: rest) ddo bm n hw
-      generalize applyTables2nodeB T edition (done.reverse ++ n :: rest) ddo bm n = a at hw1 h
+      have hw1 := applyTables2nodeB_WF T edition (fun _ => done.reverse ++ n :: rest) ddo bm n hw
+      generalize applyTables2nodeB T edition (fun _ => done.reverse ++ n :: rest) ddo bm n = a at hw1 h
       obtain ⟨ddo1, bm1, n1, err⟩ := a
       simp only [] at hw1 h
       have fin1 : ∀ (a : DecSt) (b : List Node) (c : SubsetEnd),
@@ -558,11 +558,11 @@ nodes, `initDpbm_eval`), the `k+1`-th replica of a marker operator (2 23 255, 2 
 2 32 255) is given the encoding (type, width, scale, reference value, associated-field width) of the
 data element at `dataPositions[zeroBits[k]]`, and a value of that element's type — nothing else
 changes, and the operator state is not touched. -/
-theorem marker_refers (bsq0 bsq : List Node) (ddo : DDO) (r : Int) (d : DPBM) (n : Node) (k pos q : Nat) (cbm : Node)
+theorem marker_refers (bsq0 : List Node) (bsq : Unit → List Node) (ddo : DDO) (r : Int) (d : DPBM) (n : Node) (k pos q : Nat) (cbm : Node)
     (hd : d.dp = zeroBits (dataPositions bsq0).length (bitmapNodes bsq0) 0 ∧ d.index = dataPositions bsq0)
     (hm : isMarkerDpbm n.desc = true) (hk : n.replRank = k + 1)
     (hz : (zeroBits (dataPositions bsq0).length (bitmapNodes bsq0) 0)[k]? = some pos)
-    (hq1 : (dataPositions bsq0)[pos]? = some (q + 1)) (hq2 : bsq[q]? = some cbm) :
+    (hq1 : (dataPositions bsq0)[pos]? = some (q + 1)) (hq2 : (bsq ())[q]? = some cbm) :
     bmPre bsq ddo { dpbm := some d, remainDpi := r } n =
       .ret { dpbm := some d, remainDpi := r }
         { n with enc := cbm.enc, val := (markerVal cbm).1, afW := (markerVal cbm).2.1, afBits := (markerVal cbm).2.2 } := by
@@ -887,11 +887,13 @@ theorem quiet_ok (T : Tables) (hT : QuietTables T) : ∀ f, QuietOK T f := by
           simp only [hfd] at h
           split at h
           · exact absurd h (by simp)
-          · cases hm : memberNodes T none ent.members with
-            | none => simp [hm] at h
-            | some nodes =>
-              simp only [hm] at h
-              exact ihL _ _ _ _ _ (memberNodes_quiet T _ _ _ (hT d ent hfd) hm) h
+          · split at h
+            · exact absurd h (by simp)
+            · cases hm : memberNodes T none ent.members with
+              | none => simp [hm] at h
+              | some nodes =>
+                simp only [hm] at h
+                exact ihL _ _ _ _ _ (memberNodes_quiet T _ _ _ (hT d ent hfd) hm) h
 
 /-- the closure `decodeSubsetLoopB_quiet` asks for -/
 theorem qclosed_of_quietTables (T : Tables) (hT : QuietTables T) : QClosed T := by
